@@ -8,7 +8,7 @@ from fractions import Fraction
 
 from ..gen.ledger import Opts, gen_ledger, render_dsl
 from ..probe import probe
-from ..util import rng_for, sha, fr, dstr, ZERO
+from ..util import cap_viols, rng_for, sha, fr, dstr, ZERO
 from . import ledger_core as lc
 
 PROP = "C06"
@@ -278,7 +278,7 @@ def run_lib(desc):
             viols.append(x)
         if len(samples) < 2 and not vs and len(base) <= 8 and vc.startswith("fill") and "ok" in o:
             samples.append({"base": lc.brief(base), "variant_class": vc, "variant": lc.brief(txs)})
-    return {"evaluations": len(reqs), "nontrivial_hashes": hashes, "counters": cnt, "violations": viols[:20],
+    return {"evaluations": len(reqs), "nontrivial_hashes": hashes, "counters": cnt, "violations": cap_viols(viols),
             "samples": samples}
 
 
@@ -377,7 +377,7 @@ def run_cli(desc):
             samples.append({"files": len(chunks), "styles": styles, "format": fmt, "ordered_chunks": ordered,
                             "result": "identical figures"})
     return {"evaluations": cnt["cli_pairs"] * 2, "nontrivial_hashes": hashes, "counters": cnt,
-            "violations": viols[:20], "samples": samples}
+            "violations": cap_viols(viols), "samples": samples}
 
 
 def merged_json_view(j):
